@@ -93,6 +93,18 @@ func runC16(c *Check, a *Analysis) {
 				c.Ob("R-UPDATE", sc.key(up, "targets= and "+f+"=empty in one section"), p.InstrPos(t), okc, ifs(!okc, "Update replaces the target map without clearing Client."+f+" in the same critical section: calls keep being routed to removed targets"))
 			}
 		}
+		// the new map is installed on every path: no early return keeps the old targets
+		if len(ts) > 0 {
+			_, tr, okp := p.mustPass(up, nil, func(x ssa.Instruction) bool {
+				for _, t := range ts {
+					if x == ssa.Instruction(t) {
+						return true
+					}
+				}
+				return false
+			})
+			c.Ob("R-UPDATE", sc.key(up, "targets replaced on every path"), up.Pos(), okp, ifs(!okp, "a path through Update returns without installing the new target map ("+p.lineTrail(tr)+"): removed targets stay configured and are routed to again once they answer a probe"))
+		}
 		eachInstr(up, func(in ssa.Instruction) {
 			mu, ok := in.(*ssa.MapUpdate)
 			if !ok {
@@ -540,6 +552,22 @@ func runC17(c *Check, a *Analysis) {
 			_, _, miss := p.reachFromBlock(sch, e.to, isReturnLike, func(x ssa.Instruction) bool { return x == ssa.Instruction(s) }, nil)
 			c.Ob("R-LEAST-TIME", sc.key(sch, "probe arm: stores lastTime, picks from list"), p.InstrPos(e.to.Instrs[0]), found && !miss, ifs(!(found && !miss), "the probe arm does not store lastTime on every path or does not rotate through Client.list"))
 		}
+	}
+	// the heap must be its own copy of the live list: heapifying it in place must not reorder the list the cursor walks
+	for _, hs := range p.storesToField("Client", "minHeap") {
+		st := hs.Instr.(*ssa.Store)
+		if isEmptySliceValue(p, st.Val) || baseIsLocalAlloc(hs.Base) {
+			continue
+		}
+		_, isMk := p.canon(unwrap(st.Val)).(*ssa.MakeSlice)
+		shared := false
+		for _, lsx := range p.fieldStoresIn(hs.Fn, "Client", "list") {
+			if p.canon(unwrap(lsx.Val)) == p.canon(unwrap(st.Val)) {
+				shared = true
+			}
+		}
+		okc := isMk && !shared
+		c.Ob("R-LEAST-TIME", sc.key(hs.Fn, "minHeap is a separate copy of the list"), p.InstrPos(st), okc, ifs(!okc, "Client.minHeap shares its backing array with Client.list: heapifying for a least-time pick reorders the list the probe cursor walks, so probes no longer rotate"))
 	}
 	for _, name := range []string{"minHeap", "heapDown"} {
 		fn := p.Fn(name)
